@@ -190,11 +190,77 @@ def run(ctx):
     dels = mainf.calls(('maildir', 'mailfile', 'mailprogram', 'mailforward', 'qmesearch'))
     r2.check(bool(chc) and all(mainf.dominates(chc[0], d) for d in dels), 'checkhome-before-any-delivery', mainf.unit + ':main', '')
     qe = prog.fn('qmeexists', 'qmail-local.c')
-    okq = False
-    for d in qe.calls(DIE):
-        if d.args[0].const == 111 and any(c.strip().k == 'bin' and c.strip().op == '&' and c.strip().args[1].path() == 'G:auto_patrn' and t is True for c, t in qe.guards(d) or []):
-            okq = True
-    r2.check(okq, 'writable-.qmail-refused', qe.unit + ':qmeexists', '')
+
+    class QE(QHooks):
+        MODES = (0o100644, 0o100664, 0o100646, 0o100744, 0o100764, 0o040755, 0o100600, 0o020666)
+
+        def __init__(self):
+            self.tab = {}
+
+        def tracked_global(self, path):
+            return True
+
+        def precise_arith(self, path):
+            return True
+
+        def prim_stralloc_append(self, E, x, args):
+            return [Outcome(ret=fs(1))]
+
+        prim_stralloc_0 = prim_stralloc_append
+
+        def prim_open_read(self, E, x, args):
+            return [Outcome(ret=fs(-1), sets={'$open': fs(0)}), Outcome(ret=fs(7), sets={'$open': fs(1)})]
+
+        def prim___errno_location(self, E, x, args):
+            return [Outcome(ret=fs(('&', '$errno')))]
+
+        def prim_error_temp(self, E, x, args):
+            return [Outcome(ret=fs(0))]
+
+        def prim_fstat(self, E, x, args):
+            sp = None
+            if args[1] is not TOP and len(args[1]) == 1:
+                (a_,) = args[1]
+                if isinstance(a_, tuple) and a_[0] == '&':
+                    sp = a_[1]
+            if sp is None:
+                raise AnalysisBroken('qmeexists: fstat() buffer is not an object address')
+            return [Outcome(ret=fs(0), sets={sp + '.st_mode': fs(m_), '$mode': fs(m_)}) for m_ in self.MODES]
+
+        def prim_close(self, E, x, args):
+            E.set('$closed', fs(1))
+            return [Outcome(ret=TOP)]
+
+        def prim_temp_qmail(self, E, x, args):
+            return 'noreturn'
+
+        def prim_strerr_die(self, E, x, args):
+            if g1(E, '$mode') is not None:
+                self.tab.setdefault(g1(E, '$mode'), set()).add(('exit', next(iter(args[0])) if args[0] is not TOP and len(args[0]) == 1 else None))
+            return 'noreturn'
+
+        def on_return(self, E, fn, val):
+            if fn.name == 'qmeexists' and g1(E, '$mode') is not None:
+                r_ = next(iter(val)) if val is not TOP and len(val) == 1 else None
+                self.tab.setdefault(g1(E, '$mode'), set()).add(('ret', r_, g1(E, 'CUT') if r_ == 1 else None, g1(E, '$closed', 0)))
+    qh = QE()
+    e = Engine(db, prog, qh)
+    fid = e.frame_id(qe)
+    e.run(qe, {'%s::%s' % (fid, qe.params[0]): fs(('&', 'FDV')), '%s::%s' % (fid, qe.params[1]): fs(('&', 'CUT')), 'G:auto_patrn': fs(0o022), '$errno': fs(2)})
+    rep.count_states(e.states, e.transitions)
+    badq = []
+    for m_ in QE.MODES:
+        got = qh.tab.get(m_, set())
+        if (m_ & 0o170000) != 0o100000:
+            want = {('ret', 0, None, 1)}
+        elif m_ & 0o022:
+            want = {('exit', 111)}
+        else:
+            want = {('ret', 1, 1 if m_ & 0o100 else 0, 0)}
+        if got != want:
+            badq.append((oct(m_), sorted(got, key=str), sorted(want, key=str)))
+    r2.check(not badq, 'writable-.qmail-refused', qe.unit + ':qmeexists',
+             '(.qmail mode -> outcome, documented): %s; a group/world-writable .qmail must stop the delivery (111), a non-regular file is closed and ignored, the x bit selects forward-only' % badq[:3])
     for callee in ('maildir', 'mailfile', 'mailprogram'):
         for c in mainf.calls(callee):
             g = mainf.guards(c) or []
